@@ -75,6 +75,15 @@ RecKey(e) ==
                    sk |-> WithKids(e, [i \in 1..Len(Kids(e)) |-> NoneE])]
 
 OpNodes(e)  == {n \in SubExprs(e) : IsOp(n)}
+\* The sharing sentences of the statement are made "for inputs built from variables,
+\* constants, sums, products, divisions, powers and calls" (plus the pre-existing wrappers
+\* of the quantifier).  Lists that carry any other node kind (subscripts, lookups,
+\* conditionals, comparisons, calls with keyword arguments, ...) are judged for value,
+\* for wrapper-on-wrapper and for the cache invariants; what the sharing predicates say
+\* about them is an observation (a repeated node of a kind the tagger cannot wrap hides
+\* the operations below it from the use count - the statement does not promise more).
+ScopeKinds == OpKinds \cup {"Var", "Const", "CSE"}
+InScope(ins) == \A j \in 1..Len(ins) : \A n \in SubExprs(ins[j]) : n.t \in ScopeKinds
 Wrappers(e) == {n \in SubExprs(e) : IsW(n)}
 SeqOpNodes(es)  == UNION {OpNodes(es[j]) : j \in 1..Len(es)}
 SeqWrappers(es) == UNION {Wrappers(es[j]) : j \in 1..Len(es)}
@@ -360,7 +369,33 @@ HistTagImpl(ins) ==
 NewInst(envIx) ==
     [env |-> envIx, busy |-> FALSE, cur |-> NoneE, stack |-> << >>,
      started |-> EmptyBag, completed |-> EmptyBag, done |-> {}, restarted |-> {},
-     ops |-> EmptyBag, begun |-> EmptyBag, returned |-> {}, verdicts |-> {}]
+     ops |-> EmptyBag, begun |-> EmptyBag, returned |-> {}, verdicts |-> {},
+     needR |-> {}, needD |-> {}]
+
+\* The wrappers the evaluation of e REACHES in environment env: all of them, except what
+\* stands in the branch of a conditional that is not taken and behind the operand that
+\* decides a lazy and / or (Python's if / any / all; every other node kind evaluates all
+\* its children).  Only used after the evaluation returned a value, so no reached
+\* subexpression raised; a condition whose truth the model cannot tell (value outside the
+\* model) contributes nothing beyond itself.
+RECURSIVE Reached(_, _)
+ReachedLazy(es, env, isOr) ==
+    LET RECURSIVE Go(_)
+        Go(i) == IF i > Len(es) THEN {}
+                 ELSE LET v == Eval(es[i], env) IN
+                      Reached(es[i], env)
+                      \cup (IF IsUnrep(v) \/ IsErr(v) \/ Truthy(v) = isOr THEN {} ELSE Go(i + 1))
+    IN Go(1)
+Reached(e, env) ==
+    CASE e.t = "If" ->
+            LET c == Eval(e.i, env) IN
+            Reached(e.i, env)
+            \cup (IF IsUnrep(c) \/ IsErr(c) THEN {}
+                  ELSE IF Truthy(c) THEN Reached(e.th, env) ELSE Reached(e.el, env))
+      [] e.t = "LogOr"  -> ReachedLazy(e.c, env, TRUE)
+      [] e.t = "LogAnd" -> ReachedLazy(e.c, env, FALSE)
+      [] OTHER -> (IF IsW(e) THEN {e} ELSE {})
+                  \cup UNION {Reached(Kids(e)[i], env) : i \in 1..Len(Kids(e))}
 
 Post(I, ev, envs) ==
     CASE ev.ev = "begin" -> [I EXCEPT !.busy = TRUE, !.cur = ev.n, !.stack = << >>,
@@ -369,8 +404,10 @@ Post(I, ev, envs) ==
       [] ev.ev = "child" -> [I EXCEPT !.stack = Append(@, ev.n), !.started = BagInc(@, ev.n),
                                       !.restarted = IF ev.n \in I.done THEN @ \cup {ev.n} ELSE @]
       [] ev.ev = "done"  -> [I EXCEPT !.stack = IF Len(@) > 0 THEN SubSeq(@, 1, Len(@) - 1) ELSE @,
-                                      !.completed = BagInc(@, ev.n), !.done = @ \cup {ev.n}]
+                                      !.completed = BagInc(@, ev.n), !.done = @ \cup {ev.n},
+                                      !.needD = @ \cup Reached(ev.n.a, envs[I.env])]
       [] ev.ev = "ret"   -> [I EXCEPT !.busy = FALSE, !.returned = @ \cup {I.cur},
+                                      !.needR = @ \cup Reached(I.cur, envs[I.env]),
                                       !.verdicts = @ \cup {JudgeVal(Eval(I.cur, envs[I.env]), ev.val,
                                                                     I.cur, envs[I.env])}]
       [] ev.ev = "raise" -> [I EXCEPT !.busy = FALSE, !.stack = << >>,
@@ -388,8 +425,9 @@ OccOut(n, t) == IF IsW(t) THEN 0
 ChildOncePerInstance(I) ==
     /\ I.restarted = {}
     /\ \A w \in DOMAIN I.completed : I.completed[w] <= 1
-\* a cached wrapper's child has itself been computed completely
-DoneClosed(I) == \A w \in I.done : Wrappers(w.a) \subseteq I.done
+\* a cached wrapper's child has itself been computed completely: every wrapper the
+\* evaluation of the child reaches (all of them when the child has no conditional) is cached
+DoneClosed(I) == I.needD \subseteq I.done
 \* an operation is executed only as often as it stands outside every wrapper in what
 \* was evaluated, plus once per started computation of a wrapper child it stands in
 OpsWithinBound(I) ==
@@ -398,7 +436,8 @@ OpsWithinBound(I) ==
                     + FSum([w \in DOMAIN I.started |-> I.started[w] * OccOut(n, w.a)])
 \* ... exactly once: at least once - after a value was returned every wrapper of the
 \* expression is in the cache of THIS instance
-ReturnedAllDone(I) == \A e \in I.returned : Wrappers(e) \subseteq I.done
+\* (every wrapper the evaluation reaches: all of them when there is no conditional)
+ReturnedAllDone(I) == I.needR \subseteq I.done
 StackSane(I) == /\ \A i \in 1..Len(I.stack) : I.stack[i] \in DOMAIN I.started
                 /\ (Len(I.stack) > 0 => I.busy)
 \* the cache is transparent: every value returned / exception raised is the meaning's
@@ -448,9 +487,9 @@ Check(I, ev, envs) ==
            [] ev.ev = "child" -> IF ev.n \in I.done THEN "ChildOncePerInstance" ELSE "OK"
            [] ev.ev = "done" ->
                  IF J.completed[ev.n] > 1 THEN "ChildOncePerInstance"
-                 ELSE IF ~(Wrappers(ev.n.a) \subseteq J.done) THEN "DoneClosed" ELSE "OK"
+                 ELSE IF ~(Reached(ev.n.a, envs[I.env]) \subseteq J.done) THEN "DoneClosed" ELSE "OK"
            [] ev.ev = "ret" ->
-                 IF ~(Wrappers(I.cur) \subseteq J.done) THEN "ReturnedAllDone"
+                 IF ~(Reached(I.cur, envs[I.env]) \subseteq J.done) THEN "ReturnedAllDone"
                  ELSE IF ~ValuesRight(J) THEN "ValuesRight" ELSE "OK"
            [] ev.ev = "raise" -> IF ~ValuesRight(J) THEN "ValuesRight" ELSE "OK"
            [] OTHER -> "OK"
@@ -482,7 +521,13 @@ OpBadRsC(cls, I) ==
 OpBadRs(ins, I) == OpBadRsC(InClasses(ins), I)
 RepeatedOpOnce(ins, I) == OpBadRs(ins, I) = {}
 \* independent count: calls that reached the function objects of the environment
+\* (calls with keyword arguments are no operation of the statement and are never shared:
+\* each occurrence in the input may reach its function once)
+RECURSIVE NKwCalls(_)
+NKwCalls(e) == (IF e.t = "CallKw" THEN 1 ELSE 0)
+               + SeqSum([i \in 1..Len(Kids(e)) |-> NKwCalls(Kids(e)[i])])
 CallBound(ins) == Cardinality({p \in InClasses(ins) : p.R.t = "Call"})
+                  + SeqSum([j \in 1..Len(ins) |-> NKwCalls(ins[j])])
 
 (***************************************************************************)
 (* A-layer: the caching evaluator (CSECachingMapperMixin + EvaluationMapper*)
@@ -501,6 +546,21 @@ MEvalSeq(es, cache, env) ==
                  IF IsErr(r.v) THEN [evs |-> evs \o r.evs, cache |-> r.cache, vs |-> vs, err |-> r.v]
                  ELSE Go(i + 1, r.cache, evs \o r.evs, Append(vs, r.v))
     IN Go(1, cache, << >>, << >>)
+\* any(...) / all(...) over a generator: stops at the deciding operand
+MEvalLazy(es, cache, env, isOr) ==
+    LET RECURSIVE Go(_, _, _)
+        Go(i, c, evs) ==
+            IF i > Len(es) THEN [evs |-> evs, cache |-> c, v |-> BoolV(~isOr)]
+            ELSE LET r == MEval(es[i], c, env) IN
+                 IF IsErr(r.v) \/ IsUnrep(r.v) THEN [evs |-> evs \o r.evs, cache |-> r.cache, v |-> r.v]
+                 ELSE IF Truthy(r.v) = isOr THEN [evs |-> evs \o r.evs, cache |-> r.cache, v |-> BoolV(isOr)]
+                 ELSE Go(i + 1, r.cache, evs \o r.evs)
+    IN Go(1, cache, << >>)
+\* the order in which EvaluationMapper's handler evaluates the children (positions of Kids):
+\* map_call_with_kwargs evaluates the parameters and keyword values first, the function last
+EvalOrder(e) == LET n == Len(Kids(e)) IN
+                IF e.t = "CallKw" THEN [i \in 1..n |-> IF i = n THEN 1 ELSE i + 1]
+                ELSE [i \in 1..n |-> i]
 MEval(e, cache, env) ==
     IF e.t \in {"Var", "Const"} THEN [evs |-> << >>, cache |-> cache, v |-> Eval(e, env)]
     ELSE IF e.t = "CSE" THEN
@@ -513,11 +573,21 @@ MEval(e, cache, env) ==
                     cache |-> [x \in DOMAIN r.cache \cup {CKey(e)} |->
                                   IF x = CKey(e) THEN r.v ELSE r.cache[x]],
                     v |-> r.v])
-    ELSE LET r == MEvalSeq(Kids(e), cache, env)
-             me == << [ev |-> "op", n |-> e] >>
+    ELSE IF e.t = "If" THEN
+        LET rc == MEval(e.i, cache, env) IN
+        IF IsErr(rc.v) \/ IsUnrep(rc.v) THEN rc
+        ELSE LET rb == MEval(IF Truthy(rc.v) THEN e.th ELSE e.el, rc.cache, env) IN
+             [evs |-> rc.evs \o rb.evs, cache |-> rb.cache, v |-> rb.v]
+    ELSE IF e.t \in {"LogOr", "LogAnd"} THEN MEvalLazy(e.c, cache, env, e.t = "LogOr")
+    ELSE LET ord == EvalOrder(e)
+             ks  == Kids(e)
+             r   == MEvalSeq([i \in 1..Len(ks) |-> ks[ord[i]]], cache, env)
+             \* only the operations of the statement are logged as "op"
+             me  == IF IsOp(e) THEN << [ev |-> "op", n |-> e] >> ELSE << >>
          IN IF r.err # NoneE THEN [evs |-> me \o r.evs, cache |-> r.cache, v |-> r.err]
-            ELSE [evs |-> me \o r.evs, cache |-> r.cache,
-                  v |-> Eval(WithKids(e, [i \in 1..Len(r.vs) |-> K(r.vs[i])]), env)]
+            ELSE LET val(p) == r.vs[CHOOSE i \in 1..Len(ks) : ord[i] = p] IN
+                 [evs |-> me \o r.evs, cache |-> r.cache,
+                  v |-> Eval(WithKids(e, [p \in 1..Len(ks) |-> K(val(p))]), env)]
 
 \* the complete event list of one top-level evaluation
 TopEvents(e, cache, env) ==
